@@ -29,18 +29,19 @@ def build(c):
     """files of the tree for configuration c; returns (files, main wf abstract, script)"""
     files = {}
     steps = {'a': {'kind': 'plugin', 'pstep': 'work', 'fields': {'input': tmap({'id': lit('a')})}}}
+    l2, l3 = c['_l2'], c['_l3']
     if c['depth'] >= 3:
-        files['sub/l3.yaml'] = leaf_wf()
-        files['l2.yaml'] = mid_wf('sub/l3.yaml')
+        files[l3] = leaf_wf()
+        files[l2] = mid_wf(l3)
     elif c['depth'] == 2:
-        files['l2.yaml'] = leaf_wf()
+        files[l2] = leaf_wf()
     if c['depth'] >= 2:
-        steps['loop'] = {'kind': 'foreach', 'workflow': 'l2.yaml', 'fields': {'items': lit([{'id': 'i0'}])}}
+        steps['loop'] = {'kind': 'foreach', 'workflow': l2, 'fields': {'items': lit([{'id': 'i0'}])}}
     if c['shared']:
         files['shared.yaml'] = leaf_wf()
         steps['sh1'] = {'kind': 'foreach', 'workflow': 'shared.yaml', 'fields': {'items': lit([{'id': 's0'}])}}
         if c['depth'] >= 3:
-            files['l2.yaml']['steps']['sh2'] = {'kind': 'foreach', 'workflow': 'shared.yaml', 'fields': {'items': lit([{'id': 's1'}])}}
+            files[l2]['steps']['sh2'] = {'kind': 'foreach', 'workflow': 'shared.yaml', 'fields': {'items': lit([{'id': 's1'}])}}
     wf = {'steps': steps,
           'outputs': {'success': tmap({'v': ref('steps.a.outputs.success.tok')}), 'error': tmap({'v': ref('steps.a.outputs.error.reason')}),
                       'other': tmap({'v': ref('steps.a.outputs.alt.tok')})}}
@@ -59,15 +60,20 @@ def run(ctx):
     confs = []
     for m in re.finditer(r'<<"CONFIG", "(.*)">>', out):
         j = json.loads(m.group(1).encode().decode('unicode_escape'))
+        j['c']['_l2'], j['c']['_l3'] = j['l2'], j['l3']
         confs.append((j['c'], j['id'], j['flag'], j['exit']))
-    if rc != 0 or len(confs) != 324:
+    if rc != 0 or len(confs) != 756:
         ctx.inconclusive('FileCache.tla failed: ' + out[-1200:])
         return
     st = vlib.tlc_stats(out)
     ctx.cov(states=st.get('distinct', 0), transitions=st.get('generated', 0), configurations=len(confs))
     if ctx.quick:
+        # stratified: every (depth, layout) class is sampled
         rng.shuffle(confs)
-        confs = confs[:36]
+        cls = {}
+        for x in confs:
+            cls.setdefault((x[0]['depth'], x[0]['layout']), []).append(x)
+        confs = [x for k in sorted(cls) for x in cls[k][:6]]
     binary = ctx.binary()
     scs, direct, meta = [], [], []
     for k, (c, wid, wflag, wexit) in enumerate(confs):
@@ -92,7 +98,7 @@ def run(ctx):
     res_d = vlib.run_scenarios(binary, direct, ctx.work, prefix='d')
     n = 0
     for (c, wid, wflag, wexit), re_, rd in zip(meta, res_e, res_d):
-        tag = 'depth=%d shared=%s out=%s explicit=%s dir=%s cwd=%s' % (c['depth'], c['shared'], c['out'], c['explicit'], c['dir'], c['cwd'])
+        tag = 'depth=%d layout=%s shared=%s out=%s explicit=%s dir=%s cwd=%s' % (c['depth'], c['layout'], c['shared'], c['out'], c['explicit'], c['dir'], c['cwd'])
         rp = {'kind': 'engine-scenario', 'how': 'verifh run <scenario> (engine mode, files on disk)', 'config': c}
         for r in (re_, rd):
             if r['result'] is None or r['code'] != 0:
@@ -125,6 +131,6 @@ def run(ctx):
             ctx.add('C20', 'error-flag-differs-from-specification', '%s: flag=%s want %s' % (tag, er['err_flag'], wflag), rp)
     ctx.level = 'exploration'
     ctx.cov(evaluations=2 * n, distinct_nontrivial=n,
-            rule='FileCache.tla enumerates all 324 configurations (nesting depth x shared sub-workflow x producible output x explicit schema/flag x abs/rel context dir x working directory) with expected id/flag; each tree is written to disk and run through engine.New/Parse/Run and, for comparison, prepared and executed directly',
+            rule='FileCache.tla enumerates all 756 configurations (nesting depth x directory layout of the nested files x shared sub-workflow x producible output x explicit schema/flag x abs/rel context dir x working directory) with expected id/flag; each tree is written to disk and run through engine.New/Parse/Run and, for comparison, prepared and executed directly',
             samples=[{'config': meta[0][0], 'expected_id': meta[0][1], 'expected_flag': meta[0][2]}])
     ctx.assumptions = ['the CLI exit-code table is specified (ExitCode) and its inputs (parse verdict, run error, flag) are checked; the binary itself is not run because its default configuration needs a container runtime']
